@@ -53,6 +53,12 @@ def cases_for(ctx):
     cases.append({'behaviours': ['equal', 'different', 'equal', 'equal', 'different', 'equal', 'player_raises', 'equal'], 'dedicated': True, 'recycle': 2, 'keep': True,
                   'host': 'sigchld_ignored'})
     cases.append({'behaviours': ['equal'] * 7 + ['different'], 'dedicated': True, 'recycle': 5, 'keep': False, 'host': 'sigchld_ignored'})
+    # a comparator that returns the same message-less result OBJECTS for every recording, and a replay whose extracted result is an error object
+    for ded, rc in ((False, 5), (True, 5), (True, 1)):
+        cases.append({'behaviours': ['equal', 'different', 'error_result', 'different', 'equal', 'error_result', 'different'], 'dedicated': ded, 'recycle': rc, 'keep': True,
+                      'shared_results': True, 'pair': 'S'})
+    # an equalizer built without a configuration next to another such equalizer whose settings were changed after construction
+    cases.append({'behaviours': ['equal', 'different', 'player_raises', 'equal'], 'dedicated': False, 'recycle': 5, 'keep': False, 'default_config': True})
     if ctx.quick:
         return cases
     rng = ctx.rng
@@ -96,6 +102,8 @@ def judge(ctx, case, res, w):
         ctx.violation('result sequence does not have exactly one comparison per id, in input order and labelled with that id (%d results for %d ids)' % (len(rs), len(ids)),
                       dict(w, labels=[r['recording_id'] for r in rs], ids=ids))
         return None
+    if case.get('default_config') and res['pids']:
+        ctx.violation('an equalizer built without a configuration (documented default: compare in this process) ran its replays in %d worker process(es)' % len(res['pids']), w)
     verdicts = []
     for i, (b, r) in enumerate(zip(beh, rs)):
         ctx.count('verdicts_checked')
@@ -119,7 +127,12 @@ def judge(ctx, case, res, w):
             ctx.violation('comparison carries the replay of another recording', dict(ww, playback_of=r['playback_recording_id']))
         if r['playback_token'] is not None and r['playback_token'] != tok:
             ctx.violation('attached replay holds the token of another recording', dict(ww, token=r['playback_token']))
-        if r['status'] in ('Equal', 'Different') and b != 'bare_status' and tok not in (r['message'] or ''):
+        if case.get('shared_results'):
+            if r['message'] and b != 'error_result':
+                # (an explanation the equalizer adds to the verdict of the failing replay ITSELF would be its own business)
+                ctx.violation('verdict carries a message that neither its comparator gave nor belongs to this recording (the comparator hands out the same '
+                              'message-less result objects for every recording)', ww)
+        elif r['status'] in ('Equal', 'Different') and b != 'bare_status' and tok not in (r['message'] or ''):
             ctx.violation('comparator message belongs to another recording', ww)
         if case.get('keep') and r['status'] in ('Equal', 'Different'):
             if r['expected'] != tok or not str(r['actual']).startswith(tok):
@@ -228,9 +241,9 @@ def run(ctx):
         if v is not None and case.get('pair'):
             pairs.setdefault(case['pair'], []).append((case['dedicated'], v))
     for k, lst in pairs.items():
-        if len(lst) == 2:
+        if len(lst) >= 2:
             ctx.count('in_process_vs_dedicated_compared')
-            if lst[0][1] != lst[1][1]:
+            if any(x[1] != lst[0][1] for x in lst[1:]):
                 ctx.violation('in-process and dedicated-process execution give different verdicts', {'pair': k, 'verdicts': lst})
     ctx.sample({'case': cases[0], 'expected_verdicts': [H.EXPECTED[b] for b in cases[0]['behaviours']]})
     if not ctx.counters.get('verdicts_checked') and not ctx.violations:
